@@ -16,6 +16,14 @@ RULE = (
     'signal (cancel, scope abort, until-interrupt, close) was observed by program code or a '
     'scope/until block was left; distinct = distinct activation trace (label,time) sequence'
 )
+LEVEL_TEXT = (
+    'Fault enumeration by runtime monitoring: thousands of random valid programs over the whole '
+    'API are executed on the real kernel; cancellations are injected at activation boundaries '
+    '(sampled in quick, every boundary x 3 victims in thorough). Deciding oracles: outcome '
+    'classifier of run(), per-await exception classifier in the interpreter, signal-ownership, '
+    'revocation and livelock monitors in the kernel probe. Held = no execution observed '
+    'violated; not a proof.')
+TECHNIQUE = 'runtime monitoring: kernel probe invariants + exception/outcome classifier over generated fault-injected programs'
 ASSUMPTIONS = [
     'programs are drawn from the scenario language of usimmon/prog.py within its size bounds',
     'CPython 3.12.1, configurations base/SD/-O/junk rotated over shards',
